@@ -30,12 +30,38 @@ pub fn generate(g: &mut G, _index: u64) -> Scenario {
         mailbox: g.mailbox(),
         entry: g.pick(&[Entry::BuilderSpawnOwning, Entry::BuilderSpawnOwning, Entry::SpawnOwning, Entry::SpawnDefaultOwning]),
         stopped_yields: g.below(3) as u32,
+        stopped_sleep: if g.chance(1, 4) { g.range(5, 40) } else { 0 },
+        // a handler timeout (shorter than a slow stopped()) must not touch stopped() or the value
+        timeout: if g.chance(1, 4) { Some(g.range(3, 20)) } else { None },
+        fail_on_timeout: g.chance(1, 2),
         ..Default::default()
     };
-    let kinds = [HKind::Addr, HKind::Sender, HKind::Caller, HKind::WeakSender];
+    let weak_only = g.chance(1, 5);
+    let kinds: &[HKind] = if weak_only { &[HKind::WeakSender, HKind::WeakCaller] } else { &[HKind::Addr, HKind::Sender, HKind::Caller, HKind::WeakSender] };
     let nclients = g.range(1, 3) as usize;
-    let mut fam = one_actor(g, spec, nclients, &kinds, (1, 2));
+    let mut fam = one_actor(g, spec, nclients, kinds, (1, 2));
     fill_submissions(g, &mut fam, 6, 12);
+    if weak_only {
+        // the owning address is the only strong handle: a join future taken first must resolve
+        // with the value once that handle is dropped (no stop request anywhere)
+        let ops = &mut fam.sc.clients[0].ops;
+        if g.chance(1, 2) {
+            ops.push(Op::JoinStart { h: PRIMARY });
+            ops.push(Op::Send { h: PRIMARY, id: g.id(), work: vec![] });
+            if g.chance(1, 2) {
+                ops.push(Op::Detach { h: PRIMARY, to: TMP });
+                ops.push(Op::Drop { h: TMP });
+            } else {
+                ops.push(Op::Drop { h: PRIMARY });
+            }
+            ops.push(Op::JoinFinish);
+        } else {
+            ops.push(Op::DropThenJoin { h: PRIMARY });
+        }
+        fam.sc.sched = g.sched(true);
+        fam.sc.settle_ns = 100;
+        return fam.sc;
+    }
     // failures
     match g.below(12) {
         0 => apply_cause(g, &mut fam, Cause::StartErr),
@@ -210,6 +236,16 @@ pub fn check(v: &View) -> Vec<Violation> {
                         out.push(violation(P, "detach-affected-actor", "", format!("actor {aidx}: call after detach returned {:?} although nobody had stopped the actor", c.res)));
                     }
                 }
+            }
+        }
+        // joins resolve once the actor has terminated (or can terminate: nothing strong is left)
+        // (a join on a running actor that nobody stops and that is still held - be it by the owning
+        // address the join came from - legitimately waits for ever)
+        let stop_accepted = v.stop_requests(aidx).iter().any(|r| r.accepted_ret.is_some());
+        let unheld = crate::census::census(v, aidx).t0().is_some_and(|t| t < v.phase_seq(Phase::ClientsDone));
+        if (v.out.outcome.hung || v.out.outcome.cap_phase == 1) && (a.dead.is_some() || stop_accepted || unheld) {
+            for o in joins.iter().filter(|o| !o.ended()) {
+                out.push(violation(P, "join-never-resolves", crate::props::c02::op_name(o.inner), format!("actor {aidx}: {:?} begun at seq {} never returned (actor dead: {:?})", o.inner, o.begin, a.dead)));
             }
         }
         // race coverage
